@@ -14,11 +14,15 @@ use rssl_text::{Locate, Located};
 /// Trait for applying template arguments onto another type
 pub trait ApplyTemplates {
     /// Transforms a signature with template parameters with concrete arguments
+    ///
+    /// Returns None if the arguments do not fit the signature
     fn apply_templates(
         self,
         template_args: &[Located<ir::TypeOrConstant>],
         context: &mut Context,
-    ) -> Self;
+    ) -> Option<Self>
+    where
+        Self: Sized;
 }
 
 impl ApplyTemplates for ir::FunctionSignature {
@@ -26,16 +30,16 @@ impl ApplyTemplates for ir::FunctionSignature {
         mut self,
         template_args: &[Located<ir::TypeOrConstant>],
         context: &mut Context,
-    ) -> Self {
+    ) -> Option<Self> {
         for param_type in &mut self.param_types {
             param_type.type_id =
-                apply_template_type_substitution(param_type.type_id, template_args, context);
+                apply_template_type_substitution(param_type.type_id, template_args, context)?;
         }
 
         self.return_type.return_type =
-            apply_template_type_substitution(self.return_type.return_type, template_args, context);
+            apply_template_type_substitution(self.return_type.return_type, template_args, context)?;
 
-        self
+        Some(self)
     }
 }
 
